@@ -20,14 +20,33 @@
 (* Code sites: str.py, regex.py, byte.py, ref.py, seq.py, discard.py,      *)
 (* choice.py, opt.py, list.py, sep.py, expect.py, skip.py, longest.py,     *)
 (* backtrack.py, fail.py, inline_python.py, utils.py (if_succeeds,         *)
-(* if_fails, breakable, repeat).  Ignore-skipping, let/where/apply, calls  *)
-(* and operator tables are not transcribed (their positions are moved only *)
-(* through the forms below).                                               *)
+(* if_fails, breakable, repeat), operator_table.py (the shunting-yard      *)
+(* machine with its two stacks, the commit marker and the two checkpoints; *)
+(* section "operator tables" below).  Ignore-skipping, let/where/apply and *)
+(* calls are not transcribed (their positions are moved only through the   *)
+(* forms below).                                                           *)
 (***************************************************************************)
 EXTENDS PegSem
 
 Reg(st, res, pos) == [st |-> st, res |-> res, pos |-> pos]
 Err == <<"err">>
+
+(* ---- operator_table.py, OperatorTable.create: how the rows are regrouped ---- *)
+\* a row holds one operator or a Choice of its operators; prefix / infix rows are tagged (precedence, assoc_id, x),
+\* postfix rows (precedence, x) - here one internal form <<"tag", row, assoc_id, expr>> with value <<"op", row, assoc_id, v>>;
+\* several rows of a kind are combined with Longest; mixfix rows join the operand.
+OTRows(tbl, kinds) ==
+    SelectSeq([i \in 1..Len(tbl[3]) |-> i], LAMBDA i : tbl[3][i][1] \in kinds /\ tbl[3][i][2] # <<>>)
+OTRowExpr(row) == IF Len(row[2]) = 1 THEN row[2][1] ELSE <<"choice", row[2]>>
+OTAssocId(as) == CASE as = "prefix" -> 0 [] as = "left" -> 1 [] as = "right" -> 2 [] OTHER -> 3
+OTNone == <<"none">>
+OTCombine(es) == IF es = <<>> THEN OTNone ELSE IF Len(es) = 1 THEN es[1] ELSE <<"longest", es>>
+OTTagged(tbl, kinds) ==
+    LET rs == OTRows(tbl, kinds) IN
+    OTCombine([k \in 1..Len(rs) |-> <<"tag", rs[k], OTAssocId(tbl[3][rs[k]][1]), OTRowExpr(tbl[3][rs[k]])>>])
+OTOperands(tbl) ==
+    LET rs == OTRows(tbl, {"mixfix"}) IN
+    OTCombine(<<tbl[2]>> \o [k \in 1..Len(rs) |-> OTRowExpr(tbl[3][rs[k]])])
 
 (* ---- the static flags, per class (base.py defaults, overridden per class) ---- *)
 RECURSIVE AS(_, _)
@@ -42,6 +61,8 @@ AS(G, e) ==
       [] e[1] \in {"choice", "longest"} -> \E i \in 1..Len(e[2]) : AS(G, e[2][i])
       [] e[1] \in {"left", "right"} -> AS(G, e[2]) /\ AS(G, e[3])      \* discard.py
       [] e[1] = "expect" -> AS(G, e[2])                       \* expect.py
+      [] e[1] = "tag" -> AS(G, e[4])                          \* apply.py: expr1 and the (total) Python tagger
+      [] e[1] = "optable" -> AS(G, OTOperands(e))             \* operator_table.py: self.operands.always_succeeds()
       [] OTHER -> FALSE                                       \* base.py default (seq, ref, rx, byte, not, back, fail, stri)
 
 \* can_partially_succeed()
@@ -51,7 +72,9 @@ CPS(G, e) ==
                           ELSE CPS(G, e[2]) \/ e[3] # <<"n", 1>>          \* list.py (after fix 9633d51)
       [] e[1] \in {"choice", "longest"} -> ~AS(G, e) /\ \E i \in 1..Len(e[2]) : CPS(G, e[2][i])
       [] e[1] = "expect" -> CPS(G, e[2])
-      [] OTHER -> ~AS(G, e)                                   \* base.py default: seq, discard, sep, ref, not, fail
+      [] e[1] = "optable" -> IF AS(G, e) THEN FALSE           \* operator_table.py (after fix 224ba1a)
+                             ELSE OTRows(e, {"prefix"}) # <<>> \/ CPS(G, OTOperands(e))
+      [] OTHER -> ~AS(G, e)                                   \* base.py default: seq, discard, sep, ref, not, fail, tag (Apply)
 
 (* ---- the protocol ---- *)
 RECURSIVE Run(_, _, _, _)
@@ -61,6 +84,9 @@ RECURSIVE RunList(_, _, _, _, _)
 RECURSIVE RunSep(_, _, _, _, _, _, _)
 RECURSIVE RunSkipRound(_, _, _, _, _, _)
 RECURSIVE RunLongest(_, _, _, _, _, _, _, _, _, _)
+RECURSIVE OTPrefixes(_, _, _, _)
+RECURSIVE OTPostfixes(_, _, _, _)
+RECURSIVE OTLoop(_, _, _, _)
 
 LitOK(G, v, q, txt) ==
     \* literal matched up to q (no ignore-skip in the transcribed families)
@@ -111,6 +137,11 @@ Run(G, e, txt, p) ==
       [] e[1] = "longest" ->
            IF Len(e[2]) = 1 THEN Run(G, e[2][1], txt, p)
            ELSE RunLongest(G, e[2], 1, txt, p, p, FALSE, None, p, <<p, Err>>)
+      [] e[1] = "tag" ->                                           \* apply.py with the tagger of create()
+           LET r == Run(G, e[4], txt, p) IN
+           IF AS(G, e[4]) \/ r.st THEN Reg(TRUE, <<"op", e[2], e[3], r.res>>, r.pos) ELSE r
+      [] e[1] = "optable" ->                                       \* operator_table.py
+           OTLoop(G, e, txt, [pos |-> p, outer |-> p, inner |-> p, opnds |-> <<>>, ops |-> <<>>, marker |-> 0, bad |-> ""])
 
 \* seq.py: an element that fails ends the sequence with the registers as that element left them
 RunSeq(G, es, i, txt, p, acc) ==
@@ -194,10 +225,119 @@ RunLongest(G, es, i, txt, p, back, has, best, bpos, fe) ==
          ELSE LET upd == ~has /\ (IF es[i][1] = "fail" THEN fe[1] <= r.pos ELSE fe[1] < r.pos)
               IN RunLongest(G, es, i + 1, txt, p, back, has, best, bpos, IF upd THEN <<r.pos, r.res>> ELSE fe)
 
+(* ---- operator tables: the shunting-yard machine of operator_table.py ---- *)
+\* state: pos; outer = _outer_checkpoint (end of the last complete operand with its postfix operators);
+\* inner = _inner_checkpoint; opnds = _operand_stack; ops = _operator_stack of <<prec, assoc_id, value>>;
+\* marker = _operator_marker (operators below it have their right operand); bad # "" = the real code would
+\* loop forever or pop an empty stack.
+OTLast(q) == q[Len(q)]
+OTFront(q, n) == SubSeq(q, 1, Len(q) - n)
+
+\* pop_operator()
+OTPop(S) ==
+    IF S.bad # "" THEN S
+    ELSE IF S.ops = <<>> \/ S.opnds = <<>> THEN [S EXCEPT !.bad = "pop from an empty stack"]
+    ELSE LET top == OTLast(S.ops)
+             right == OTLast(S.opnds) IN
+         IF top[2] # 0                                             \* _is_infix
+         THEN (IF Len(S.opnds) < 2 THEN [S EXCEPT !.bad = "pop from an empty stack"]
+               ELSE [S EXCEPT !.ops = OTFront(@, 1),
+                              !.opnds = Append(OTFront(@, 2), <<"I", S.opnds[Len(S.opnds) - 1], top[3], right>>)])
+         ELSE [S EXCEPT !.ops = OTFront(@, 1), !.opnds = Append(OTFront(@, 1), <<"P", top[3], right>>)]
+
+\* while ops and ops[-1][0] < prec: pop_operator()        (a postfix operator closes everything that binds tighter)
+RECURSIVE OTPopTighter(_, _)
+OTPopTighter(S, prec) ==
+    IF S.bad = "" /\ S.ops # <<>> /\ OTLast(S.ops)[1] < prec THEN OTPopTighter(OTPop(S), prec) ELSE S
+
+\* the reduce loop that an infix operator of row `prec` triggers; returns <<state, has_conflict>>
+RECURSIVE OTReduce(_, _)
+OTReduce(S, prec) ==
+    IF S.bad # "" \/ S.ops = <<>> THEN <<S, FALSE>>
+    ELSE LET top == OTLast(S.ops) IN
+         IF top[1] < prec \/ (top[1] = prec /\ top[2] = 1) THEN OTReduce(OTPop(S), prec)
+         ELSE IF top[1] = prec /\ top[2] = 3 THEN <<[S EXCEPT !.pos = S.outer], TRUE>>   \* second non-associative operator
+         ELSE <<S, FALSE>>
+
+RECURSIVE OTPopAll(_)
+OTPopAll(S) == IF S.bad = "" /\ S.ops # <<>> THEN OTPopAll(OTPop(S)) ELSE S
+
+\* after the loop: commit what is complete; `r` = the registers as the last failing sub-expression left them
+OTFinish(S, r) ==
+    IF S.bad # "" THEN Reg(FALSE, <<"bad", S.bad>>, S.pos)
+    ELSE IF S.opnds # <<>>
+    THEN LET S1 == OTPopAll([S EXCEPT !.ops = SubSeq(@, 1, IF S.marker < Len(@) THEN S.marker ELSE Len(@))]) IN   \* a Python slice clamps
+         IF S1.bad # "" THEN Reg(FALSE, <<"bad", S1.bad>>, S.pos)
+         ELSE Reg(TRUE, S1.opnds[1], S1.pos)
+    ELSE Reg(FALSE, r.res, S.pos)
+
+\* utils.repeat(prefixes, inner_checkpoint): operator_stack.append(RESULT)
+OTPrefixes(G, pre, txt, S) ==
+    LET cps == CPS(G, pre)
+        S1 == IF cps THEN [S EXCEPT !.inner = S.pos] ELSE S
+        r == Run(G, pre, txt, S1.pos)
+    IN IF ~AS(G, pre) /\ ~r.st THEN [S1 EXCEPT !.pos = IF cps THEN S1.inner ELSE r.pos]
+       ELSE IF r.pos <= S.pos THEN [S1 EXCEPT !.bad = "prefix loop makes no progress"]
+       ELSE OTPrefixes(G, pre, txt, [S1 EXCEPT !.pos = r.pos, !.ops = Append(@, <<r.res[2], r.res[3], r.res[4]>>)])
+
+\* utils.repeat(postfixes, inner_checkpoint): close tighter operators, wrap the top operand
+OTPostfixes(G, post, txt, S) ==
+    LET cps == CPS(G, post)
+        S1 == IF cps THEN [S EXCEPT !.inner = S.pos] ELSE S
+        r == Run(G, post, txt, S1.pos)
+    IN IF S.bad # "" THEN S
+       ELSE IF ~AS(G, post) /\ ~r.st THEN [S1 EXCEPT !.pos = IF cps THEN S1.inner ELSE r.pos]
+       ELSE IF r.pos <= S.pos THEN [S1 EXCEPT !.bad = "postfix loop makes no progress"]
+       ELSE LET S2 == OTPopTighter([S1 EXCEPT !.pos = r.pos], r.res[2]) IN
+            IF S2.bad # "" THEN S2
+            ELSE IF S2.opnds = <<>> THEN [S2 EXCEPT !.bad = "pop from an empty stack"]
+            ELSE OTPostfixes(G, post, txt,
+                             [S2 EXCEPT !.opnds = Append(OTFront(@, 1), <<"Q", OTLast(S2.opnds), r.res[4]>>)])
+
+\* one round of the outer `while True`
+OTLoop(G, tbl, txt, S) ==
+    LET pre == OTTagged(tbl, {"prefix"})
+        opd == OTOperands(tbl)
+        post == OTTagged(tbl, {"postfix"})
+        inf == OTTagged(tbl, {"left", "right", "infix"})
+        S1 == IF pre = OTNone THEN S ELSE OTPrefixes(G, pre, txt, S)
+    IN IF S1.bad # "" THEN OTFinish(S1, Reg(FALSE, Err, S1.pos))
+       ELSE LET S2 == IF CPS(G, opd) THEN [S1 EXCEPT !.inner = S1.pos] ELSE S1
+                x == Run(G, opd, txt, S2.pos) IN
+            IF ~AS(G, opd) /\ ~x.st
+            THEN \* no operand: go back behind the last complete operand if there is one (an operator may have been consumed)
+                 OTFinish([S2 EXCEPT !.pos = IF S2.opnds # <<>> THEN S2.outer ELSE x.pos], x)
+            ELSE LET S3 == [S2 EXCEPT !.pos = x.pos, !.opnds = Append(@, x.res)]
+                     S4 == IF post = OTNone THEN S3 ELSE OTPostfixes(G, post, txt, S3)
+                     S5 == [S4 EXCEPT !.marker = Len(S4.ops), !.outer = S4.pos]
+                 IN IF S5.bad # "" \/ inf = OTNone THEN OTFinish(S5, x)
+                    ELSE LET o == Run(G, inf, txt, S5.pos) IN
+                         IF ~AS(G, inf) /\ ~o.st
+                         THEN OTFinish([S5 EXCEPT !.pos = IF CPS(G, inf) THEN S5.outer ELSE o.pos], o)
+                         ELSE IF o.pos <= S.pos THEN OTFinish([S5 EXCEPT !.bad = "outer loop makes no progress"], o)
+                         ELSE LET rd == OTReduce([S5 EXCEPT !.pos = o.pos], o.res[2])
+                                  S6 == rd[1] IN
+                              IF rd[2] \/ S6.bad # "" THEN OTFinish(S6, o)
+                              ELSE OTLoop(G, tbl, txt,
+                                          [S6 EXCEPT !.marker = Len(S6.ops),
+                                                     !.ops = Append(@, <<o.res[2], o.res[3], o.res[4]>>)])
+
 (* ---- refinement ---- *)
 \* the registers after running e at 0 are what PegSem says (value and end on success; failure otherwise)
 Refines(G, e, txt) ==
     LET s == Eval(G, e, EmptyEnv, txt, 0)
         r == Run(G, e, txt, 0)
     IN s.t = "ill" \/ (r.st = (s.t = "ok") /\ (r.st => (r.res = s.v /\ r.pos = s.e)))
+
+\* the flags are sufficient: whoever relies on "cannot partially succeed" finds the position where it was
+FlagSound(G, e, txt) ==
+    LET s == Eval(G, e, EmptyEnv, txt, 0)
+        r == Run(G, e, txt, 0)
+    IN s.t = "ill" \/ ((~r.st /\ ~CPS(G, e)) => r.pos = 0)
+
+\* the machine never pops an empty stack and never spins on a well-formed case
+NoBadState(G, e, txt) ==
+    LET s == Eval(G, e, EmptyEnv, txt, 0)
+        r == Run(G, e, txt, 0)
+    IN s.t = "ill" \/ r.st \/ r.res[1] # "bad"
 =============================================================================
